@@ -12,11 +12,20 @@ use crate::pipe::*;
 
 /// True when values of the type are plain data: no addresses (arrays, boxes, nullables, dicts), no builtin
 /// pointers, no randomised state (EcState). Decided structurally from the type declarations, by allowlist.
-fn pointer_free(p: &Program, t: &cairo_lang_sierra::ids::ConcreteTypeId, depth: usize) -> bool {
+pub fn pointer_free(p: &Program, t: &cairo_lang_sierra::ids::ConcreteTypeId, depth: usize) -> bool {
     if depth > 30 {
         return false;
     }
     let Some(d) = p.type_declarations.iter().find(|d| d.id == *t) else { return false };
+    // a panicable function returns PanicResult<(T,)>: the runner dereferences the panic data itself, so only
+    // the success variant's type decides whether the observable value is pointer-free
+    if depth == 0 && d.long_id.generic_id.0 == "Enum" {
+        if let [cairo_lang_sierra::program::GenericArg::UserType(ut), cairo_lang_sierra::program::GenericArg::Type(ok), _] = &d.long_id.generic_args[..] {
+            if ut.debug_name.as_ref().map(|n| n.starts_with("core::panics::PanicResult::")).unwrap_or(false) {
+                return pointer_free(p, ok, depth + 1);
+            }
+        }
+    }
     const PLAIN: &[&str] = &[
         "felt252", "u8", "u16", "u32", "u64", "u128", "i8", "i16", "i32", "i64", "i128", "bytes31", "Struct", "Enum", "Snapshot", "NonZero", "BoundedInt", "EcPoint", "ContractAddress",
         "ClassHash", "StorageAddress", "StorageBaseAddress", "IntRange", "U128MulGuarantee",
@@ -38,7 +47,7 @@ enum Mode {
     Diff,
 }
 
-const AMPLE: usize = 100_000_000;
+const AMPLE: usize = 5_000_000;
 
 fn cfgs_for(mode: Mode, tier: Tier) -> Vec<Cfg> {
     match (mode, tier) {
@@ -244,7 +253,7 @@ pub static C05: CheckDef = CheckDef {
     id: "C05",
     level: "exploration",
     rule: "Execution space with ample gas under every configuration of the lattice (quick: 6 corners {disabled, default, avoid-inlining, inline-all+match-threshold 1, inline-none+skip-const-folding+threshold 1000, legacy solvers+threshold 2}; thorough: the full product Optimizations{Disabled, Enabled x Inlining{Default,Avoid,Small(0|4|1000)} x skip_const_folding} x NumericMatchOptimizationMinArmsThreshold{unset,1,2,1000} x {linear,legacy metadata} = 88 configurations), each compared with Optimizations::Disabled. Oracle: identical RunResultValue (success felts or panic felts); an 'Out of gas' panic on either side is counted inconclusive. Programs that do not compile under a configuration are counted, not judged (C08).",
-    assumptions: &["ample gas = 10^8", "the corelib-test verdict vectors are covered by the thorough tier only"],
+    assumptions: &["ample gas = 5*10^6 (50k steps; unbounded recursions end in Out of gas)", "the corelib-test verdict vectors are covered by the thorough tier only"],
     run: run_c05,
     stack_mb: 16,
     item_timeout_s: 300,
